@@ -442,7 +442,7 @@ def py_value(v, built):
     return [built[i] for i in x]
 
 
-def build_kwargs(al, built, live=None, setlit=None):
+def build_kwargs(al, built, live=None, setlit=None, handles=None):
     """live: None, or a list collecting (list object, final contents): every value list is then handed over with OTHER
     contents (empty, or the final ones reversed without the first) and set to the final contents only after the query is built"""
     from krrood.entity_query_language.match import match, match_any, match_all, select, select_any, select_all
@@ -474,7 +474,10 @@ def build_kwargs(al, built, live=None, setlit=None):
         else:
             ctor = {"any": match_any, "match": match, "select": select, "select_any": select_any}[ap[3]]
             t = CLASSES[ap[1]] if ap[1] else None
-            kw[a] = (ctor(t) if t is not None else ctor())(**build_kwargs(ap[2], built, live, setlit))
+            m = ctor(t) if t is not None else ctor()
+            if handles is not None and ap[3] in ("select", "select_any"):
+                handles.append(m)
+            kw[a] = m(**build_kwargs(ap[2], built, live, setlit, handles))
     return kw
 
 
@@ -512,7 +515,8 @@ def run_impl(d: dict):
         from krrood.entity_query_language.symbolic import UnificationDict
         ctor = entity_selection if d.get("rootsel") else entity_matching
         live = [] if d.get("live") else None
-        q = an(ctor(CLASSES[d["T"]], None if d.get("nodomain") else [built[i] for i in d["dom"]])(**build_kwargs(d["pat"], built, live, d.get("setlit"))))
+        handles = []
+        q = an(ctor(CLASSES[d["T"]], None if d.get("nodomain") else [built[i] for i in d["dom"]])(**build_kwargs(d["pat"], built, live, d.get("setlit"), handles)))
         if d.get("live") == 2:
             list(q.evaluate())                   # a first evaluation over the initial contents
         for lst, final in (live or []):
@@ -520,16 +524,20 @@ def run_impl(d: dict):
         res = list(q.evaluate())
         selected = list(q._child_.selected_variables)
         rows = []
+        handle_bad = 0
         for r in res:
             if isinstance(r, UnificationDict):
                 rows.append([canon(r.data[v].value) for v in selected])
+                for h in handles:        # row[select handle] must be the matched element: the value of the variable the select was resolved on
+                    if h.variable in r.data and r[h] is not r.data[h.variable].value:
+                        handle_bad += 1
             else:
                 rows.append([canon(r)])
         if d.get("rootsel") or not has_sel(d["pat"]):
             ids = [row[0][1] for row in rows]              # the root element is the first column
-            out = [sorted(set(ids)), len(ids), rows]
+            out = [sorted(set(ids)), len(ids), rows, handle_bad]
         else:
-            out = [None, len(rows), rows]
+            out = [None, len(rows), rows, handle_bad]
     except Exception as e:  # noqa
         out = [-1, sum(map(ord, type(e).__name__))]
     return out, keys, built
@@ -743,6 +751,17 @@ def has_sel(al) -> bool:
                for _, ap in al)
 
 
+def sel_on_collection(al, cname) -> bool:
+    """a select(...) / select_any(T)(...) written on a collection attribute (resolved on the Flatten node)"""
+    ft = field_table()
+    for a, ap in al:
+        if ap[0] == "match" and (cname, a) in ft:
+            it, end = ft[(cname, a)]
+            if (it and ap[3] in ("select", "select_any")) or sel_on_collection(ap[2], end):
+                return True
+    return False
+
+
 def has_var(al) -> bool:
     return any(ap[0] == "var" or (ap[0] == "match" and has_var(ap[2])) for _, ap in al)
 
@@ -947,6 +966,7 @@ def run(tier: str, seed: int, replay=None) -> int:
         return sorted({json.dumps([[t, sorted(v)] if t == 3 else [t, v] for t, v in r]) for r in x})
 
     rows_bad = []
+    handle_bad = []
     for i, (d, impl, pys, (model, spec, inf, ncond, lax, inflax, mrows, srows)) in enumerate(zip(descrs, impls, builts, vals)):
         iset = impl[0] if impl[0] != -1 else impl
         sel_case = bool(d.get("rootsel")) or has_sel(d["pat"])
@@ -958,6 +978,12 @@ def run(tier: str, seed: int, replay=None) -> int:
             iset, model, spec = irows, mrows, srows
         elif mrows is not None and irows != mrows:
             rows_bad.append((i, irows, mrows))
+        if impl[0] != -1 and len(impl) > 3 and impl[3]:
+            # row[select handle] is not the matched element
+            if "K_selecthandle" in open_classes and sel_on_collection(d["pat"], d["T"]):
+                kf_seen["K_selecthandle"] = kf_seen.get("K_selecthandle", 0) + 1
+            else:
+                handle_bad.append((i, d, impl[3]))
         cl = classify(d)
         nT = len([j for j in d["dom"] if issub(d["objs"][j]["cls"], d["T"])])
         nontrivial = isinstance(iset, list) and (0 < len(spec) < nT or (sel_case and len(spec) > 0))
@@ -1006,6 +1032,10 @@ def run(tier: str, seed: int, replay=None) -> int:
                    "" if not rows_bad else f"rows of a pattern without select differ: case {rows_bad[0][0]}: impl {rows_bad[0][1]} model {rows_bad[0][2]}")
         rep.oblige("correspondence:model", not model_bad,
                    "" if not model_bad else f"{len(model_bad)} cases, first: impl {model_bad[0][2]} model {model_bad[0][3]} case {json.dumps(model_bad[0][1])[:300]}")
+    for i, d, n in handle_bad[:3]:
+        rep.violation({"kind": "counterexample", "case": d, "impl": f"{n} rows in which row[select handle] is not the matched element",
+                       "python": snippet(d),
+                       "explanation": "for every select(...) handle h and every result row r: r[h] must be the value of the variable the select was resolved on (the matched element)"})
     for i, d, iset, model, spec in (bad + [m for m in model_bad if m[2] == m[4]][:1])[:5]:
         if (i, d, iset, model, spec) in bad:
             rep.violation({"kind": "counterexample", "case": d, "impl": iset, "model": model, "spec": spec,
@@ -1037,6 +1067,14 @@ def run(tier: str, seed: int, replay=None) -> int:
             k = by_name[name]
             impl, (model, spec, inf, *_rest) = impls[k], vals[k]
             iset = impl[0] if impl[0] != -1 else impl
+            if f.cls == "K_selecthandle":
+                bad_h = impl[0] != -1 and len(impl) > 3 and impl[3]
+                if f.kind == "open":
+                    rep.known(f) if bad_h else rep.note(f"known finding {f.fid} no longer reproduces on its witness (repaired?)")
+                elif bad_h:
+                    rep.violation({"kind": "regression", "finding": f.fid, "case": descrs[k], "impl": f"{impl[3]} rows with a wrong handle value",
+                                   "python": snippet(descrs[k]), "explanation": f"defect {f.fid} repaired by {f.commit} is back"})
+                continue
             if f.kind == "open":
                 if iset != spec and (model is None or iset == model):
                     rep.known(f)
